@@ -418,6 +418,33 @@ func GlobalWrites(fns []*ssa.Function) []GlobalWrite {
 								out = append(out, GlobalWrite{in, g, "Read into its storage"})
 							}
 						}
+						// a method that changes its receiver, called on an object a package variable points to: a
+						// generator, buffer or big integer shared by every caller (math/rand.Rand is not safe for
+						// concurrent use; a shared big.Int "constant" used as a receiver stops being one)
+						if g := rootGlobal(args[0], 0); g != nil && g.Pkg != nil {
+							mut := false
+							switch {
+							case strings.HasPrefix(name, "(*math/rand.Rand)."):
+								mut = true
+							case isBigIntSetter(name):
+								mut = true
+							case strings.HasPrefix(name, "(*bytes.Buffer).") && !strings.HasSuffix(name, ".Bytes") && !strings.HasSuffix(name, ".Len") && !strings.HasSuffix(name, ".String") && !strings.HasSuffix(name, ".Cap"):
+								mut = true
+							}
+							if mut {
+								out = append(out, GlobalWrite{in, g, "call of " + name[strings.LastIndex(name, ".")+1:] + " (changes its receiver) on the object"})
+							}
+						}
+						// ... or handed such an object: a *math/rand.Rand is advanced by whoever draws from it
+						for _, a := range args {
+							if !strings.HasSuffix(a.Type().String(), "math/rand.Rand") {
+								continue
+							}
+							if g := rootGlobal(a, 0); g != nil && g.Pkg != nil {
+								out = append(out, GlobalWrite{in, g, "use of the generator (every draw changes it; math/rand.Rand is not safe for concurrent use)"})
+								break
+							}
+						}
 						// a sync.Map kept in a package variable: synchronised, but still state that outlives the call
 						switch name {
 						case "(*sync.Map).Store", "(*sync.Map).LoadOrStore", "(*sync.Map).Delete", "(*sync.Map).Swap", "(*sync.Map).LoadAndDelete", "(*sync.Map).CompareAndSwap":
